@@ -109,10 +109,10 @@ func (b *setextHeadingParser) Close(node ast.Node, reader text.Reader, pc Contex
 
 	if b.AutoHeadingID {
 		id, ok := node.AttributeString("id")
-		if !ok {
-			generateAutoHeadingID(heading, reader, pc)
+		if bs, isBytes := id.([]byte); ok && isBytes {
+			pc.IDs().Put(bs)
 		} else {
-			pc.IDs().Put(id.([]byte))
+			generateAutoHeadingID(heading, reader, pc)
 		}
 	}
 }
